@@ -104,12 +104,16 @@ type PVer struct {
 
 // H is one history: the input of one annotate.Ways / annotate.Relations call.
 type H struct {
-	Way           bool    `json:"way"` // parent is a way over nodes; otherwise a relation
-	Regime        Regime  `json:"regime"`
-	Eps           int64   `json:"eps_s"`                 // threshold in seconds
-	EpsDefault    bool    `json:"eps_default,omitempty"` // no Threshold option is passed (default 30 min)
-	Mixed         bool    `json:"mixed,omitempty"`       // versions before MixSec carry no commit time (run only)
-	MixSec        int64   `json:"mix_s,omitempty"`
+	Way        bool   `json:"way"` // parent is a way over nodes; otherwise a relation
+	Regime     Regime `json:"regime"`
+	Eps        int64  `json:"eps_s"`                 // threshold in seconds
+	EpsDefault bool   `json:"eps_default,omitempty"` // no Threshold option is passed (default 30 min)
+	Mixed      bool   `json:"mixed,omitempty"`       // versions before MixSec carry no commit time (run only)
+	MixSec     int64  `json:"mix_s,omitempty"`
+	// Span: the history crosses osm.CommitInfoStart at MixSec (= that instant): parent and child
+	// versions before it carry no commit time (timestamp regime, threshold Eps), those at or
+	// after it do. Unlike Mixed histories these are checked.
+	Span          bool    `json:"span,omitempty"`
 	Polygon       bool    `json:"polygon,omitempty"`  // relation tagged type=multipolygon
 	Boundary      bool    `json:"boundary,omitempty"` // with Polygon: tagged type=boundary instead
 	Ring          bool    `json:"ring,omitempty"`     // way children are consecutive arcs of one closed ring
@@ -185,7 +189,7 @@ var Zones = []*time.Location{
 // time of one version use neighbouring zones, so that they differ as structs as well.
 func (h *H) stamps(sec, lag int64, z int) (ts time.Time, committed *time.Time) {
 	if h.Regime == Commit {
-		if h.Mixed && sec < h.MixSec {
+		if (h.Mixed || h.Span) && sec < h.MixSec {
 			return h.atz(sec, z), nil
 		}
 		c := h.atz(sec, z)
